@@ -444,3 +444,32 @@ Example C05_tr_plus_runs :
   | CLite.Ok (CLite.VPtr _ o, m1) => o = 8%Z /\ TrEx.str_of m1 (G + 1) = [43; 47; 120; 32; 121]%Z
   | _ => False end.
 Proof. vm_compute. split; reflexivity. Qed.
+
+(* cutword(arg, tok) of ec_set (":se opt=val"), same technique, for ASCII arguments: the C text calls
+   isspace( *s) on a plain char, which <ctype.h> defines only for the values of unsigned char and EOF;
+   for an argument shorter than EXLEN of bytes below 128 and tok[EXLEN] the translated text returns Ok at
+   the model's position with the model's word in tok *)
+Theorem C05_tr_cutword : forall (m : CLite.mem) bs bd s (blk : CLite.block) i d fuel,
+  CLiteProps.str_at m bs s -> Forall (fun c => (c < 128)%N) s ->
+  nth_error m bd = Some blk -> Z.of_nat (length blk) = EXLEN -> bs <> bd ->
+  (Z.of_nat (length s) < EXLEN)%Z -> (i <= length s)%nat -> (S (length s) <= fuel)%nat ->
+  exists i' w, cutword s i (newbuf excap) = Ok (i', w) /\
+    CLite.callf GenCFuncs.cprog fuel (S d) GenCFuncs.F_cutword [CLite.VPtr bs (Z.of_nat i); CLite.VPtr bd 0%Z] m
+    = CLite.Ok (CLite.VPtr bs (Z.of_nat i'),
+                CLiteProps.upd m bd (TrEx.cstr_cells (wstr w) ++ skipn (S (length (wstr w))) blk)) /\
+    (i <= i')%nat /\ (i' <= length s)%nat /\ (length (wstr w) <= i' - i)%nat /\ (length (wstr w) < length blk)%nat.
+Proof. exact TrEx.cutword_safe. Qed.
+Print Assumptions C05_tr_cutword.
+
+(* it runs on " ic  x" (tok = "ic", stops at "x"); and the ASCII hypothesis is needed: on the first byte of
+   a two-byte character (":se \xc3\xa9") the argument of isspace is -61 and the checked semantics stops with
+   ECtype -- the C standard leaves that call undefined (glibc happens to tolerate it) *)
+Example C05_tr_cutword_runs :
+  let G := length GenCFuncs.cglobals in
+  match CLite.callf GenCFuncs.cprog 100 1 GenCFuncs.F_cutword [CLite.VPtr G 0%Z; CLite.VPtr (G + 1) 0%Z]
+          (GenCFuncs.cglobals ++ [CLite.cstr_block [32; 105; 99; 32; 32; 120]%Z; repeat CLite.VUndef excap]) with
+  | CLite.Ok (CLite.VPtr _ o, m1) => o = 5%Z /\ TrEx.str_of m1 (G + 1) = [105; 99]%Z
+  | _ => False end /\
+  CLite.callf GenCFuncs.cprog 100 1 GenCFuncs.F_cutword [CLite.VPtr G 0%Z; CLite.VPtr (G + 1) 0%Z]
+    (GenCFuncs.cglobals ++ [CLite.cstr_block [195; 169]%Z; repeat CLite.VUndef excap]) = CLite.Err CLite.ECtype.
+Proof. vm_compute. repeat split; reflexivity. Qed.
